@@ -331,6 +331,11 @@ func (ex *Exec) load(st *PState, p Value) Value {
 			if ok && cur.isZero() {
 				return ex.ts.Int64(0)
 			}
+			if ok && q.Limb == 1 {
+				if w, ok := ex.rawLimb0(st, cur); ok {
+					return w
+				}
+			}
 			fail("limb access into abstracted element (only zero elements may be accessed by limb)")
 		}
 		return ex.underGuard(st, walk(ex.objValue(st, q.Obj), q.Path))
@@ -747,6 +752,13 @@ func (ex *Exec) storeSub(st *PState, p *PtrV, v Value) {
 // a/b = limbs * R^-1 mod q, or an opaque named atom when there is no small reconstruction).
 func (ex *Exec) storeLimb(st *PState, q *PtrV, v Value) {
 	vt, ok := v.(*Term)
+	if ok && !vt.IsConst() && vt.sort == SInt && q.Limb == 1 {
+		// a word parked in the first limb of an element (scratch use of the storage, read back through the
+		// same limb before the element is used as a number): the element becomes an opaque carrier of it
+		d := ex.ts.DeclareUF("rawlimb0", []Sort{SInt}, SInt, nil, nil)
+		st.heap.Set(q.Obj, update(ex.objValue(st, q.Obj), q.Path, ex.ts.App(d, vt)))
+		return
+	}
 	if !ok || !vt.IsConst() || vt.sort != SInt {
 		fail("limb store of a non-constant into an abstracted element")
 	}
@@ -1001,4 +1013,31 @@ func (ex *Exec) guardDecides(st *PState, c *Term) int {
 	}
 	ex.guardDecideCache[key] = r
 	return r
+}
+
+// rawLimb0 recovers the word parked in the first limb of an element by storeLimb (through merges;
+// an alternative that is not such a carrier must be excluded by the path guard).
+func (ex *Exec) rawLimb0(st *PState, t *Term) (*Term, bool) {
+	if t.op == "uf:rawlimb0" {
+		return t.args[0], true
+	}
+	if t.isZero() {
+		return ex.ts.Int64(0), true
+	}
+	if t.op == "ite" {
+		a, ok1 := ex.rawLimb0(st, t.args[1])
+		b, ok2 := ex.rawLimb0(st, t.args[2])
+		if ok1 && ok2 {
+			return ex.ts.Ite(t.args[0], a, b), true
+		}
+		if ok1 || ok2 {
+			switch r := ex.guardDecides(st, t.args[0]); {
+			case r > 0 && ok1:
+				return a, true
+			case r < 0 && ok2:
+				return b, true
+			}
+		}
+	}
+	return nil, false
 }
